@@ -1476,6 +1476,7 @@ class ForkState:
 
 
 _orig_bool = jsrc_core.Tracer.__bool__
+_orig_index = jsrc_core.Tracer.__index__
 
 
 def _fork_bool(self):
@@ -1483,17 +1484,36 @@ def _fork_bool(self):
   if st is None:
     return _orig_bool(self)
   k = len(st['decisions'])
-  d = st['script'][k] if k < len(st['script']) else True
+  d = bool(st['script'][k]) if k < len(st['script']) else True
   st['decisions'].append((self, d))
   return d
 
 
+def _fork_index(self):
+  """Python-level integer use of a traced value (list indexing): concretise to a scripted value from the
+  harness-supplied finite domain; the path condition is `tracer == value`."""
+  st = ForkState.active
+  if st is None or st.get('index_domain') is None:
+    return _orig_index(self)
+  k = len(st['decisions'])
+  d = int(st['script'][k]) if k < len(st['script']) else int(st['index_domain'][0])
+  st['decisions'].append((self, ('i', d)))
+  return d
+
+
 jsrc_core.Tracer.__bool__ = _fork_bool
+jsrc_core.Tracer.__index__ = _fork_index
 
 
-def trace(fn, abstract_args, script=()):
+def alternatives(decision, index_domain):
+  if isinstance(decision, tuple):
+    return [('i', v) for v in (index_domain or []) if v != decision[1]]
+  return [not decision]
+
+
+def trace(fn, abstract_args, script=(), index_domain=None):
   """Trace fn(*args) with disable_jit + compile-time eval.  Returns (closed_jaxpr, out_tree_def, decisions)."""
-  st = {'script': list(script), 'decisions': []}
+  st = {'script': [s[1] if isinstance(s, tuple) else s for s in script], 'decisions': [], 'index_domain': index_domain}
 
   def wrapped(*a):
     with jax.disable_jit(), jax.ensure_compile_time_eval():
@@ -1509,9 +1529,9 @@ def trace(fn, abstract_args, script=()):
   return closed, shape, [d for _, d in st['decisions']]
 
 
-def run_symbolic(fn, abstract_args, sym_args, ctx=None, script=(), interp=None):
+def run_symbolic(fn, abstract_args, sym_args, ctx=None, script=(), interp=None, index_domain=None):
   """Trace and interpret.  Returns (out_pytree_of_object_arrays, path_conds, decisions, closed)."""
-  closed, shape, decisions = trace(fn, abstract_args, script)
+  closed, shape, decisions = trace(fn, abstract_args, script, index_domain)
   flat_sym, _ = jax.tree_util.tree_flatten(sym_args, is_leaf=lambda x: isinstance(x, np.ndarray))
   it = interp or Interp(ctx)
   outs = it.eval_closed(closed, *flat_sym)
@@ -1522,25 +1542,29 @@ def run_symbolic(fn, abstract_args, sym_args, ctx=None, script=(), interp=None):
   pcs = []
   for c, d in zip(conds, decisions):
     e = c.reshape(-1)[0]
-    pcs.append(e if d else B_not(e))
+    if isinstance(d, tuple):
+      pcs.append(n_eq(e, d[1]))
+    else:
+      pcs.append(e if d else B_not(e))
   return out, pcs, decisions, closed
 
 
-def explore(fn, abstract_args, sym_args, ctx_factory=Ctx, max_paths=64, max_depth=8):
+def explore(fn, abstract_args, sym_args, ctx_factory=Ctx, max_paths=64, max_depth=8, index_domain=None):
   """DFS over fork scripts.  Yields (out, path_conds, ctx, script)."""
   stack = [()]
   n = 0
   while stack:
     script = stack.pop()
     ctx = ctx_factory()
-    out, pcs, decisions, closed = run_symbolic(fn, abstract_args, sym_args, ctx=ctx, script=script)
+    out, pcs, decisions, closed = run_symbolic(fn, abstract_args, sym_args, ctx=ctx, script=script, index_domain=index_domain)
     n += 1
     if n > max_paths:
       raise Unsupported('too many fork paths')
     if len(decisions) > max_depth:
       raise Unsupported('fork depth %d' % len(decisions))
     for i in range(len(script), len(decisions)):
-      stack.append(tuple(decisions[:i]) + (not decisions[i],))
+      for alt in alternatives(decisions[i], index_domain):
+        stack.append(tuple(decisions[:i]) + (alt,))
     yield out, pcs, ctx, tuple(decisions)
 
 
